@@ -87,6 +87,9 @@ func (r *Report) finish() (int, error) {
 		}
 		// not discharged
 		kf := known.match(r.Prop.ID, ob.Name)
+		if kf != nil && ob.NoFinding {
+			kf = nil // clauses used as lemmas are never weakened by a finding
+		}
 		if kf != nil {
 			ok, note := r.checkKnown(e, ob, kf)
 			if ok {
@@ -305,7 +308,11 @@ func (r *Report) checkKnown(e *Enc, ob *Obligation, kf *knownFinding) (bool, str
 	}
 	nerr := len(e.errs)
 	nl := len(e.lines)
+	np := len(e.seqPairs)
 	cls := e.evalBool(ob.Env, Clause{Text: kf.Class, Expr: ex, File: "KNOWN_FINDINGS.txt"})
+	for i := np; i < len(e.seqPairs); i++ {
+		e.seqPairs[i].at = ob.Upto
+	}
 	extra := append([]string{}, e.lines[nl:]...)
 	e.lines = e.lines[:nl]
 	if len(e.errs) > nerr {
